@@ -82,9 +82,25 @@ def add_pending(a, rng):
 
 
 def protected_bytes(a):
-    """content and parity bytes; an absent parity file counts as an empty one (parity_create opens with O_CREAT)"""
+    """content and parity bytes, exactly: an absent file is None (a refused sync that leaves a new empty parity file HAS changed
+    something: reported under its own finding key, see run_case)"""
     return ({c: (open(c, 'rb').read() if os.path.exists(c) else None) for c in a.content_files},
-            {f: (open(f, 'rb').read() if os.path.exists(f) else b'') for fs in a.parity_files for f in fs})
+            {f: (open(f, 'rb').read() if os.path.exists(f) else None) for fs in a.parity_files for f in fs})
+
+
+def protected_diff(before, after):
+    """-> (other changes, [parity files that did not exist and now exist with 0 bytes])"""
+    other, created_empty = [], []
+    for c in before[0]:
+        if before[0][c] != after[0][c]:
+            other.append('content file %s' % os.path.basename(os.path.dirname(c)))
+    for f in before[1]:
+        if before[1][f] != after[1][f]:
+            if before[1][f] is None and after[1][f] == b'':
+                created_empty.append(f)
+            else:
+                other.append('parity file %s' % os.path.basename(f))
+    return other, created_empty
 
 
 def run_case(ctx, a, paths, cmd, opts, expect, desc, replay, model_cmd=None, after_check=True, pre_hook=None, finding_key=None):
@@ -115,7 +131,10 @@ def run_case(ctx, a, paths, cmd, opts, expect, desc, replay, model_cmd=None, aft
         ctx.viol('lock_removed', 'LOCK FILE REMOVED OR REPLACED by `%s %s` (%s %s): the lock is a flock on the inode behind <first content>.lock; once the path is removed while another command holds or is taking the lock, a third command locks a new inode and runs concurrently (%s)'
                  % (cmd, ' '.join(opts), r['call'], r['extra'], desc), rep)
     writes = obs - {('WLock',), ('WLog',)}
-    changed_protected = before != after
+    changed_other, created_empty = protected_diff(before, after)
+    changed_protected = bool(changed_other)
+    # the bare creation of a missing parity file is reported under its own finding key below, not as an unexplained write
+    writes = writes - set(('RszParity', paths.parity[f]) for f in created_empty if not any(os.path.basename(f) in x for x in changed_other))
     # ---- the property itself, independent of the model
     if expect == 'refuse':
         ctx.refusals += 1
@@ -125,7 +144,11 @@ def run_case(ctx, a, paths, cmd, opts, expect, desc, replay, model_cmd=None, aft
         if not o.r.err.strip():
             bad.append('no diagnostic on stderr')
         if changed_protected:
-            bad.append('content or parity bytes changed')
+            bad.append('content or parity bytes changed (%s)' % ', '.join(changed_other))
+        if created_empty:
+            # exactly this shape: the refusal itself is right, but parity_create (O_CREAT) ran before the size test
+            ctx.viol('refusal_creates_parity', 'REFUSED SYNC CREATES A PARITY FILE (%s): `%s %s` exits %d and changes no byte, but leaves the new empty file(s) %s where no parity file existed (parity_create opens with O_CREAT before the size test of state_sync)'
+                     % (desc, cmd, ' '.join(opts), o.rc, ', '.join(os.path.basename(x) for x in created_empty)), rep, finding_key='F-C14-refused-sync-creates-empty-parity-file')
         if writes:
             bad.append('state-changing calls beyond lock/log: %s' % sorted(writes))
         if bad:
@@ -262,7 +285,7 @@ def trig_empty(a, rng, di, variant):
                 os.rename(p, p + '.moved')
                 a.note_version(d, f + '.moved')
         return True
-    if variant == 'symlink_stays':               # an unchanged symlink counts in `equal`: no trigger
+    if variant == 'symlink_stays':               # every regular file gone, an unchanged symlink stays (scan.c counts it in `equal`)
         for f in fl:
             p = a.path(d, f)
             if not os.path.islink(p):
@@ -460,6 +483,17 @@ def scenario_sync_trigger(ctx, seed, kind, where, variant, pending, shape, fmt=N
             ov = [['-F'], ['-R']]
         # a wrong override must not help
         wrong = {'empty': ['--force-zero'], 'zero': ['--force-empty'], 'parity': ['--force-empty', '--force-zero']}[kind]
+        links_only = kind == 'empty' and variant == 'symlink_stays'
+        if links_only:
+            # property text: "all files previously known on a data disk are missing or rewritten" -> refuse.  scan.c counts the
+            # unchanged symbolic link in `equal`, so the rule does not fire and the sync proceeds: an open finding of exactly this
+            # shape (every regular file of the disk missing, at least one unchanged link recorded on it)
+            o = run_case(ctx, a, paths, 'sync', extra, 'refuse', desc + ' [every regular file of the disk missing, an unchanged link stays]', replay,
+                         finding_key='F-C14-links-disarm-empty-disk-interlock')
+            cross_check_scan(ctx, o, desc)
+            if o.rc != 0:
+                run_case(ctx, a, paths, 'sync', ['--force-empty'] + extra, 'proceed', desc + ' override', replay)
+            return
         if fires:
             if kind == 'parity' and fmt:
                 # with recorded split sizes (version-3 content) the test must look at the files, not at the recorded sizes
@@ -964,7 +998,7 @@ def scenario_combined(ctx, seed, shape):
             d = L.presummary(a, paths, 'sync', opts)
             short = min(d['parity_blocks']) < d['used']
             # the array changes as soon as one combination gets through: what fires NOW is read from the independent summary
-            empty_f = any(e == 0 and m == 0 and r == 0 and (rm or ch) for e, m, r, rm, ch, ins, cp, z in d['disks'])
+            empty_f = any(e == 0 and m == 0 and r == 0 and (rm or ch) for e, m, r, rm, ch, el, ins, cp, z in d['disks'])
             zero_f = any(z for *_, z in d['disks'])
             exp = 'refuse' if ((empty_f and '--force-empty' not in opts) or (zero_f and '--force-zero' not in opts) or (short and '-F' not in opts)) else 'proceed'
             run_case(ctx, a, paths, 'sync', opts, exp, 'combined:empty+zero+parity', replay)
